@@ -1075,18 +1075,21 @@ def lists_kept_except(E, lst):
                                                 z3.Select(cur_el, r) == z3.Select(old_el, r)))), "bool")
 
 
+_N_ABSENT = object()
+
+
 def _n_streak(log):
     if not log.loggees:
-        return None
+        return _N_ABSENT
     tag, loggee = list(log.loggees.items())[0]
     if not loggee:
-        return None
+        return _N_ABSENT
     field = log.fields[tag][0] if log.fields[tag] else loggee.keys()[0]
-    return loggee[field] if field in loggee else None
+    return loggee[field] if field in loggee else _N_ABSENT
 
 
 streak_prepared.native = lambda log, seq: True
-streak_applies.native = lambda log, seq: _n_streak(log) is not None
+streak_applies.native = lambda log, seq: _n_streak(log) is not _N_ABSENT
 streak_list.native = lambda log: _n_streak(log)
 
 SEQ = dict(self=Ref("LogSeq"))
@@ -1163,6 +1166,10 @@ def _loggee_pull(E, sh):
     return pull
 
 
+for _m in ("pop", "popleft", "append", "appendleft"):
+    # the deque interface of a Deck (Log.logDeck itself only uses Share.pull = popleft)
+    REG.classes["C22Deck"].hooks[("getattr", _m)] = _method(
+        lambda E, dk, *a, _m=_m: B.list_method(E, E.rd_field(dk, "items"), _m, list(a), {}))
 DOFF = z3.Function("c22_deck_off", z3.IntSort(), z3.IntSort(), z3.IntSort())   # cells written for entries < k
 DCNT = z3.Function("c22_deck_cnt", z3.IntSort(), z3.IntSort(), z3.IntSort())   # mapping entries among entries < k
 
@@ -1397,10 +1404,20 @@ contract(FL, "Log.deck", "C22", params=DK, externals=EXT2,
 
 
 # =================================================================== LEMMAS (pure z3, REG.lemmas)
+_VACUITY = []      # (what, formulas): premises of the lemmas, each must be satisfiable (checked with the lemmas)
+
+
 def _sat(*fs):
     sol = z3.Solver()
+    sol.set("rlimit", 20000000)
     sol.add(*fs)
     return sol.check() == z3.sat
+
+
+def _vacuity_check(repo):
+    bad = [what for what, fs in _VACUITY if not _sat(*fs)]
+    return (not bad, "premises not shown satisfiable: %s" % bad if bad else
+            "%d lemma premises are satisfiable (a model was found for each)" % len(_VACUITY))
 
 
 def _opt_eq(an, a, bn, b):
@@ -1548,12 +1565,14 @@ def _update_lemmas():
         ("update/STRONGEST: in every reachable state Log.update writes a record <=> first run or some loggee was "
          "written after the previous record IN A LATER TICK than that record", [u_inv(a)], u_code(a) == strongest),
     ]
-    assert _sat(u_inv(a), u_corner(a)), "corner premise unsatisfiable"
-    assert _sat(u_inv(a), z3.Not(u_corner(a)), z3.Not(a.ls_n), a.N == 2, a.dirty[0]), "agree premise unsatisfiable"
-    assert _sat(u_init(a), a.N == 1, a.Sn[0], u_step_R(a, b), u_step_W(b, c, z3.IntVal(0)), c.now == b.now,
-                u_step_tick(c, d), d.now > c.now), "chain unsatisfiable"
-    for st in (lambda x, y: u_step_W(x, y, k0), u_step_R, u_step_tick):
-        assert _sat(u_inv(a), st(a, b)), "step premise unsatisfiable"
+    _VACUITY.extend([
+        ("update corner premise", [u_inv(a), u_corner(a)]),
+        ("update agree premise", [u_inv(a), z3.Not(u_corner(a)), z3.Not(a.ls_n), a.N == 2, a.dirty[0]]),
+        ("update chain", [u_init(a), a.N == 1, a.Sn[0], u_step_R(a, b), u_step_W(b, c, z3.IntVal(0)), c.now == b.now,
+                          u_step_tick(c, d), d.now > c.now]),
+        ("update step-W premise", [u_inv(a), u_step_W(a, b, k0)]),
+        ("update step-R premise", [u_inv(a), u_step_R(a, b)]),
+        ("update step-tick premise", [u_inv(a), u_step_tick(a, b)])])
     return out
 
 
@@ -1650,14 +1669,18 @@ def _change_lemmas():
          [c_inv(a), a.M == 2, c_vanish(a, z3.IntVal(0)), a.pres[1], a.inL[1], a.cur[1] != a.last[1], c_step_R(a, b)],
          z3.And(c_stmt(a), z3.Not(c_code(a)), b.last[1] == a.last[1])),
     ]
-    assert _sat(c_inv(a), a.M == 2, c_vanish(a, z3.IntVal(0)), a.pres[1], a.inL[1], a.cur[1] != a.last[1]), "vanish unsat"
-    assert _sat(c_inv(a), c_no_vanish(a), a.M == 2, a.pres[0], a.inL[0], a.cur[0] != a.last[0]), "agree premise unsat"
-    assert _sat(c_inv(a), c_no_vanish(a), c_step_R(a, b), a.M == 1), "step premise unsat"
+    _VACUITY.extend([
+        ("change vanished-field premise", [c_inv(a), a.M == 2, c_vanish(a, z3.IntVal(0)), a.pres[1], a.inL[1],
+                                           a.cur[1] != a.last[1]]),
+        ("change agree premise", [c_inv(a), c_no_vanish(a), a.M == 2, a.pres[0], a.inL[0], a.cur[0] != a.last[0]]),
+        ("change step-R premise", [c_inv(a), c_no_vanish(a), c_step_R(a, b), a.M == 1, a.pres[0], a.inL[0],
+                                   a.cur[0] != a.last[0]])])
     return out
 
 
 for _name, _pc, _goal in _prefix_sum_lemmas() + _update_lemmas() + _change_lemmas():
     REG.lemmas.append(("C22", _name, _pc, _goal))
+REG.static_checks.append(("C22", "lemma premises are satisfiable (vacuity guard)", _vacuity_check))
 
 
 # =================================================================== NATIVE HARNESS (cross-check and replay)
